@@ -760,7 +760,7 @@ pub fn c13_judge(src: &str) -> Result<Option<(usize, usize, usize)>, Failure> {
     let Outcome::Ok(out) = outcome::generate(src) else { return Ok(None) };
     let types = match emitted::read_types(&out) {
         Ok(t) => t,
-        Err(e) => return fail("unreadable-type-region", format!("emitted type definitions do not have the documented layout: {e}")),
+        Err(e) => return Err(Failure::internal("unreadable-type-region", format!("the harness cannot read the emitted type definitions: {e}"), case.clone())),
     };
     let want_tokens: Vec<Vec<String>> = nm.term_types.iter().map(|t| t.token_vec()).collect();
     let same = |site: &str, tname: &str, got: &str, t: usize| -> Result<(), Failure> {
@@ -819,7 +819,7 @@ pub fn c13_judge(src: &str) -> Result<Option<(usize, usize, usize)>, Failure> {
     // helper code
     let helpers = match emitted::read_helper_types(&out) {
         Ok(h) => h,
-        Err(e) => return fail("unreadable-helpers", format!("helper code does not have the documented layout: {e}")),
+        Err(e) => return Err(Failure::internal("unreadable-helpers", format!("the harness cannot read the emitted helper code: {e}"), case.clone())),
     };
     for (t, tn) in nm.terms.iter().enumerate() {
         let Some((_, ty)) = helpers.node_variants.iter().find(|(n, _)| n == tn) else {
